@@ -155,7 +155,8 @@ def _get_start_index(connectivity: xarray.DataArray) -> int:
 
     # These are the valid values
     if start_index in {0, 1}:
-        return cast(int, start_index)
+        # The attribute may be stored as a float, the indexes stay integers
+        return int(start_index)
 
     # Some datasets use the strings '0' or '1'.
     # This does not adhere to the spec but is easy to interpret
